@@ -403,7 +403,7 @@ pub fn run(tier: Tier) -> ! {
         }
     });
     // evaluate
-    let untagged = ["a b", "ab a", "あ a1", "abab", "a ba b", "", "火星 猫 だ", "1 1a"];
+    let untagged = ["a b", "ab a", "あ a1", "abab", "a ba b", "", "火星 猫 だ", "1 1a", "a\\/b a\\ b", "｢あ｣ ｡"];
     let tagged = ["a/X/p b", "ab/Z/s a/Y/q", "あ/V a", "a/X/q b a/Y/p", "", "ab/Z/t", "b a/X/r"];
     let mut ejobs = vec![];
     for model in 0..N_MODELS {
